@@ -5,6 +5,7 @@ package main
 // of testbin/driver.go.txt.
 
 import (
+	"sync"
 	"bufio"
 	"bytes"
 	"context"
@@ -326,17 +327,30 @@ func runTestBinaryX(m *modSpec, o *obsResult, seed int64, samples int, withRand 
 	res.RunErr = errMsg
 	if withRand {
 		// one process per type: an unbounded recursion kills the process with a fatal stack overflow
-		list, _ := runOnce("randlist", 20*time.Second)
+		list, _ := runOnce("randlist", 60*time.Second)
 		for _, name := range strings.Fields(list) {
 			out, errMsg := runOnce("rand:"+name, 30*time.Second)
+			if errMsg != "" && !strings.Contains(errMsg, "stack overflow") {
+				// killed at the time limit, which a loaded machine reaches on functions that do return: once more, alone
+				// (the other test binaries wait), with a generous limit
+				aloneMu.Lock()
+				out, errMsg = runOnce("rand:"+name, 150*time.Second)
+				aloneMu.Unlock()
+			}
 			parse(out)
 			if errMsg != "" {
-				res.Records = append(res.Records, binRecord{Kind: "rand", Type: name, OK: false, Msg: "does not terminate (" + errMsg + ")"})
+				what := "does not terminate ("
+				if !strings.Contains(errMsg, "stack overflow") && !strings.Contains(errMsg, "signal: killed") {
+					what = "the process calling it died ("
+				}
+				res.Records = append(res.Records, binRecord{Kind: "rand", Type: name, OK: false, Msg: what + errMsg + ")"})
 			}
 		}
 	}
 	os.Remove(bin)
 	return res
 }
+
+var aloneMu sync.Mutex
 
 func exportedName(s string) bool { return s != "" && s[0] >= 'A' && s[0] <= 'Z' }
